@@ -20,7 +20,8 @@ type libCtx struct {
 	t *Target
 	g *opGen
 	// sharedMapDone: the shared-empty-map histories are value independent, run once per type
-	sharedMapDone bool
+	sharedMapDone  bool
+	sharedListDone bool
 }
 
 // pair builds the generated message and the reference holding v (transported through the wire).
@@ -202,6 +203,20 @@ func (c *libCtx) libCase(v, other *vval.Val, replay string) {
 		if got := c.canon(dstA); got != dstBefore {
 			viol("merge-independent", fmt.Sprintf("mutating the merge source (%v) changed the destination", ops))
 		}
+		// a destination whose lists have spare capacity holding STALE elements behind len (what `m.F = m.F[:k]` leaves):
+		// slots beyond len are not part of the value, Merge must append copies of the source's elements
+		{
+			srcC, srcDC, _ := c.pair(other)
+			dstC, dstDC, _ := c.pair(v)
+			vval.AddStaleCapacity(dstC, 1)
+			{
+				proto.Merge(dstC, srcC)
+				proto.Merge(dstDC, srcDC)
+				if got, w := c.view(dstC), c.rview(dstDC); got != w {
+					viol("merge-stale-capacity", "Merge(dst, src) into a destination whose lists have stale elements in their spare capacity: got "+clip(got, 400)+" reference "+clip(w, 400))
+				}
+			}
+		}
 		// ... also not through shared backing arrays of byte slices
 		srcB, _, _ := c.pair(other)
 		dstB, _, _ := c.pair(v)
@@ -324,6 +339,93 @@ func (c *libCtx) libCase(v, other *vval.Val, replay string) {
 			if og != od {
 				b.Violate("C08", "shared-map-detached", fmt.Sprintf("map field index %d shared through Set while empty: generated %s, references %s", j, og, od),
 					S.Line()+"\n# shared-empty-map pass type "+t.Full)
+			}
+		}
+	}
+	// ---- a list value stored with Set while another owner keeps it (another message's Mutable view, a NewField
+	// list), with and without spare capacity: later appends through the destination and element writes through the
+	// retained list must show the same sharing as on the references (compared only where protobuf-go's own
+	// struct-based reflection and dynamicpb agree with each other)
+	if !c.sharedListDone {
+		c.sharedListDone = true
+		for j := range S.Msgs[0].Fields {
+			f := &S.Msgs[0].Fields[j]
+			if f.Shape != vschema.Repeated {
+				continue
+			}
+			for _, n := range []int{1, 2, 3, 5, 6} {
+				for _, viaNewField := range []bool{false, true} {
+					run := func(mk func() protoreflect.Message) (obs string) {
+						if p, pm := guard(func() {
+							src, dst := mk(), mk()
+							fd := fdOf(src, f)
+							var sl protoreflect.List
+							if viaNewField {
+								sl = src.NewField(fd).List()
+							} else {
+								sl = src.Mutable(fd).List()
+							}
+							for i := 0; i < n; i++ {
+								sl.Append(sl.NewElement())
+							}
+							dst.Set(fd, protoreflect.ValueOfList(sl))
+							dl := dst.Mutable(fd).List()
+							dl.Append(dl.NewElement())
+							obs = fmt.Sprintf("len src=%d dst=%d;", sl.Len(), dst.Get(fd).List().Len())
+							// write element 0 through the retained list; read it through the destination
+							if fd.Message() != nil {
+								e := sl.NewElement()
+								e.Message().SetUnknown(protoreflect.RawFields{0x98, 0x3f, 0x07})
+								sl.Set(0, e)
+								obs += fmt.Sprintf("dst[0].unknown=%x", []byte(dst.Get(fd).List().Get(0).Message().GetUnknown()))
+							} else {
+								var nv protoreflect.Value
+								switch fd.Kind() {
+								case protoreflect.BoolKind:
+									nv = protoreflect.ValueOfBool(true)
+								case protoreflect.StringKind:
+									nv = protoreflect.ValueOfString("w")
+								case protoreflect.BytesKind:
+									nv = protoreflect.ValueOfBytes([]byte("w"))
+								case protoreflect.EnumKind:
+									nv = protoreflect.ValueOfEnum(fd.Enum().Values().Get(fd.Enum().Values().Len() - 1).Number())
+								case protoreflect.Int32Kind, protoreflect.Sint32Kind, protoreflect.Sfixed32Kind:
+									nv = protoreflect.ValueOfInt32(7)
+								case protoreflect.Int64Kind, protoreflect.Sint64Kind, protoreflect.Sfixed64Kind:
+									nv = protoreflect.ValueOfInt64(7)
+								case protoreflect.Uint32Kind, protoreflect.Fixed32Kind:
+									nv = protoreflect.ValueOfUint32(7)
+								case protoreflect.Uint64Kind, protoreflect.Fixed64Kind:
+									nv = protoreflect.ValueOfUint64(7)
+								case protoreflect.FloatKind:
+									nv = protoreflect.ValueOfFloat32(7)
+								default:
+									nv = protoreflect.ValueOfFloat64(7)
+								}
+								sl.Set(0, nv)
+								obs += fmt.Sprintf("dst[0]=%v", dst.Get(fd).List().Get(0).Interface())
+							}
+						}); p {
+							obs += ";panic:" + firstLine(pm)
+						}
+						return obs
+					}
+					og := run(func() protoreflect.Message { return t.Info.Proto.ProtoReflect().New() })
+					od := run(func() protoreflect.Message { return dynamicpb.NewMessage(t.Desc) })
+					if t.Info.Slow == nil {
+						continue
+					}
+					os := run(func() protoreflect.Message { return t.Info.Slow(t.Info.Proto.ProtoReflect().New().Interface()) })
+					b.Count("shared_list_cases")
+					if od != os {
+						b.Count("shared_list_references_disagree")
+						continue
+					}
+					if og != od {
+						b.Violate("C08", "shared-list-detached", fmt.Sprintf("list field index %d (%d elements, from NewField: %v) stored with Set while another owner keeps it, then appended to through the destination: generated %s, references %s", j, n, viaNewField, og, od),
+							S.Line()+"\n# shared-list pass type "+t.Full)
+					}
+				}
 			}
 		}
 	}
